@@ -138,18 +138,18 @@ GetManyAbs(e, A, obs) ==
 \* e.r = flags ++ bucket indices ++ classes of the returned elements
 TGetManyAbs(e, A, pre, h0, tr) ==
   LET N == Len(e.ks)
-      acc(i) == {e.ks[i]} \cup (IF e.j = 1 THEN {e.ks[i] + 1} ELSE {})
+      accE(i, x) == (x[1] = e.ks[i] /\ x[5] = h0[e.ks[i]].pos /\ x[6] = h0[e.ks[i]].tag) \/ (e.j = 1 /\ x[1] = e.ks[i] + 1)
       found == {i \in 1..N : e.r[i] = 1}
       upd == {pre.data[e.r[N + i]] : i \in found}
       newA == IF tr THEN (A \ upd) \cup {SetV(pre.data[e.r[N + i]], e.v + (i - 1)) : i \in found} ELSE A
   IN IF e.pn = "dup"
-     THEN AR(A, {}, \E i, j \in 1..N : i # j /\ \E x \in A : x[1] \in acc(i) \cap acc(j))
+     THEN AR(A, {}, \E i, j \in 1..N : i # j /\ \E x \in A : accE(i, x) /\ accE(j, x))
      ELSE IF e.pn # "" \/ Len(e.r) # 3 * N THEN AR(A, {}, FALSE)
      ELSE AR(newA, {},
              /\ \A i \in 1..N : e.r[i] \in {0, 1}
              /\ \A i \in found : /\ e.r[N + i] \in FullIdx(pre)
-                                  /\ pre.data[e.r[N + i]][1] \in acc(i) /\ e.r[2 * N + i] = pre.data[e.r[N + i]][1]
-             /\ \A i \in (1..N) \ found : e.r[N + i] = -1 /\ WithHash({x \in A : x[1] \in acc(i)}, h0[e.ks[i]]) = {}
+                                  /\ accE(i, pre.data[e.r[N + i]]) /\ e.r[2 * N + i] = pre.data[e.r[N + i]][1]
+             /\ \A i \in (1..N) \ found : e.r[N + i] = -1 /\ WithHash({x \in A : accE(i, x)}, h0[e.ks[i]]) = {}
              /\ \A i, j \in found : i # j => e.r[N + i] # e.r[N + j])
 
 ---------------------------------------------------------------------------
@@ -211,7 +211,7 @@ OpStep(e) ==
           [] e.op = "t_entry_insert" /\ e.r[1] = 1 ->
                LET N == Elems(obsT[t])
                    ne == MkElem(e.k, e.id, e.v, 0, hq)
-                   X == {x \in Cands(A, e.k) : N = (A \ {x}) \cup {ne}}
+                   X == {x \in CandsH(A, e.k, hq) : N = (A \ {x}) \cup {ne}}
                IN IF X = {} THEN AR(A, {}, FALSE)
                   ELSE LET x == CHOOSE x \in X : TRUE IN AR(N, {x[2]}, e.pn = "" /\ e.r = <<1, e.id, e.v>>)
           [] hd.kind = "table" -> AbsTableOp(e, A, pre, hq)
